@@ -200,6 +200,35 @@ pub fn generate(tier: &str, rng: &mut Prng) -> Vec<Case> {
             }
         }
     }
+    // full-size inputs whose first quotient is dense and as large as the 2^24 range allows: sparse (f, g) (four
+    // coefficients of magnitude <= 12) times a dense k in (-2^18, 2^18).  The products k*f, k*g are then below 2^24 in
+    // every coefficient although |k|_1 * |f|_oo is near 2^31: a bound on the product that is sufficient but not
+    // necessary (an "overflow guard" in the 32-bit path) refuses exactly these
+    for n in [512usize, 1024] {
+        for _ in 0..(if thorough { 8 } else { 2 }) {
+            let mut sparse = |rng: &mut Prng| -> Vec<i128> {
+                let mut v = vec![0i128; n];
+                for _ in 0..4 {
+                    let j = rng.below(n as u64) as usize;
+                    v[j] = *rng.pick(&[-12i128, -7, -1, 1, 5, 12]);
+                }
+                v
+            };
+            let fl = sparse(rng);
+            let gl = sparse(rng);
+            let k: Vec<i128> = (0..n).map(|_| rng.range(-(1 << 18) + 1, (1 << 18) - 1) as i128).collect();
+            let kf = negacyc(&k, &fl);
+            let kg = negacyc(&k, &gl);
+            let cf: Vec<i128> = kf.iter().map(|b| b + rng.range(-3, 3) as i128).collect();
+            let cg: Vec<i128> = kg.iter().map(|b| b + rng.range(-3, 3) as i128).collect();
+            if cf.iter().chain(cg.iter()).any(|x| x.abs() >= (1 << 24)) {
+                continue;
+            }
+            let f: Vec<i32> = fl.iter().map(|&x| x as i32).collect();
+            let g: Vec<i32> = gl.iter().map(|&x| x as i32).collect();
+            ops.push(Case::new(format!("babai {n} {} {} {} {}", ints(&f), ints(&g), ints(&cf), ints(&cg))));
+        }
+    }
     // the zero case (finding F9) explicitly
     ops.push(Case::new("babai 4 3,1,-2,0 1,-1,2,1 15,5,-10,0 5,-5,10,5".to_string()));
     ops
